@@ -357,7 +357,7 @@ def variant(c, adv, rng, how):
 
 MUTATIONS = ["redef-bounds", "redef-sign", "redef-value", "redef-children", "redef-class", "redef-copy",
              "leaf-bounds", "byid-same", "byid-other", "dup-same", "dup-copy", "dup-leaf", "dup-leaf-bounds",
-             "cycle-self", "cycle-deep", "cycle-cross", "gen-coincide-other", "gen-coincide-same", "gen-coincide-leaf", "gen-coincide-concat",
+             "cycle-self", "cycle-deep", "cycle-cross", "gen-coincide-other", "gen-coincide-same", "gen-coincide-leaf", "gen-coincide-concat", "repr-coincide",
              "childless-redef", "share-object", "share-leaf"]
 
 def mutate(top, adv, rng, mut, collide=False):
@@ -460,6 +460,19 @@ def mutate(top, adv, rng, mut, collide=False):
         b = {"k": rng.choice(["All", "Any"]), "ch": [{"k": "str", "id": i}, adv.fresh_leaf()], "id": j}
         top = attach(top, a, adv, rng)
         return attach(top, b, adv, rng)
+    if mut == "repr-coincide":
+        # two compounds with the same explicit id, sign and value whose child lists PRINT alike: ["u,v"] and ["u", "v"]
+        adv.n += 1
+        u, v, i = f"u{adv.n}", f"v{adv.n}", f"C{adv.n}"
+        k = rng.choice(["All", "Any", "AtLeast"])
+        def mk(ids):
+            r = {"k": k, "ch": [{"k": "str", "id": x} for x in ids], "id": i}
+            if k == "AtLeast": r["v"] = 1; r["s"] = None
+            if k == "All": r = {"k": "AtLeast", "v": 1, "s": None, "ch": r["ch"], "id": i}
+            return r
+        g1, g2 = mk([u + "," + v]), mk([u, v])
+        top = attach(top, g1, adv, rng)
+        return attach(top, g2, adv, rng, avoid=g1)
     if mut == "gen-coincide-concat":
         # two unnamed sub-propositions over DIFFERENT leaves whose generated ids coincide: the id generator hashes the
         # unseparated concatenation of the child ids (+ value + sign), and "uv"+"w" == "u"+"vw"
